@@ -14,8 +14,20 @@ import (
 // Domain "loc": histories of Location operations over several locations
 // (indexed and linear state, MemStorage, SimpleLocationProvider).
 
+var locProfiles = []string{"search", "dispatch", "lifecycle", "cascade", "acl", "capacity", "forest", "expiry"}
+
 func init() {
 	register("loc", &Domain{Gen: genLoc, Exec: execLoc})
+	for _, p := range locProfiles {
+		prof := p
+		register("loc-"+prof, &Domain{Exec: execLoc, Gen: func(r *rand.Rand, n int, tier string) []Case {
+			var cases []Case
+			for i := 0; i < n; i++ {
+				cases = append(cases, genLocCase(r, prof))
+			}
+			return cases
+		}})
+	}
 }
 
 // ---------------------------------------------------------------- generator
@@ -57,7 +69,9 @@ func (lg *locGen) fact() map[string]interface{} {
 	case 1:
 		f["long"] = strings.Repeat("x", 1030)
 	case 2:
-		f["deleteWith"] = []interface{}{lg.ids[r.Intn(len(lg.ids))]}
+		if lg.profile == "cascade" || lg.profile == "search" {
+			f["deleteWith"] = []interface{}{lg.ids[r.Intn(len(lg.ids))]}
+		}
 	}
 	return f
 }
@@ -76,14 +90,14 @@ func (lg *locGen) op() map[string]interface{} {
 	}
 	w := map[string][]int{
 		//            addfact addrule remfact remrule get getrule search event enable clear setparents getparents size reload special
-		"search":    {30, 3, 10, 1, 10, 1, 35, 2, 0, 1, 0, 0, 1, 3, 3},
-		"dispatch":  {6, 30, 2, 8, 2, 3, 3, 35, 6, 1, 0, 0, 0, 3, 1},
-		"lifecycle": {6, 22, 2, 10, 2, 2, 2, 30, 16, 1, 0, 0, 0, 6, 1},
-		"cascade":   {30, 8, 15, 6, 6, 0, 12, 6, 6, 1, 0, 0, 4, 4, 2},
+		"search":    {32, 3, 10, 1, 12, 1, 36, 0, 0, 1, 0, 0, 1, 3, 0},
+		"dispatch":  {6, 30, 2, 8, 2, 3, 2, 36, 4, 1, 2, 0, 0, 3, 0},
+		"lifecycle": {6, 22, 2, 10, 2, 2, 2, 30, 16, 1, 0, 0, 0, 6, 3},
+		"cascade":   {30, 8, 15, 6, 6, 0, 12, 6, 6, 1, 0, 0, 4, 4, 0},
 		"acl":       {12, 8, 6, 4, 8, 4, 10, 8, 4, 2, 4, 4, 4, 2, 20},
-		"capacity":  {40, 14, 14, 4, 2, 0, 4, 2, 6, 2, 0, 0, 8, 2, 2},
-		"forest":    {14, 12, 3, 3, 3, 1, 18, 18, 3, 1, 14, 4, 0, 3, 3},
-		"expiry":    {25, 12, 3, 2, 14, 2, 14, 12, 2, 0, 0, 0, 2, 8, 4},
+		"capacity":  {40, 14, 14, 4, 2, 0, 4, 2, 6, 2, 0, 0, 8, 2, 0},
+		"forest":    {14, 12, 3, 3, 3, 1, 18, 18, 3, 1, 14, 4, 0, 3, 0},
+		"expiry":    {25, 12, 3, 2, 14, 2, 14, 12, 2, 0, 0, 0, 2, 8, 0},
 	}[lg.profile]
 	total := 0
 	for _, x := range w {
@@ -121,7 +135,7 @@ func (lg *locGen) op() map[string]interface{} {
 			}
 			f["deleteWith"] = dw
 		}
-		if lg.profile == "expiry" || r.Intn(30) == 0 {
+		if lg.profile == "expiry" {
 			lg.expiry(f)
 		}
 		if r.Intn(40) == 0 {
@@ -143,12 +157,19 @@ func (lg *locGen) op() map[string]interface{} {
 			rule["schedule"] = "+1h"
 			delete(rule, "when")
 		case 3:
-			rule["deleteWith"] = []interface{}{lg.ids[r.Intn(len(lg.ids))]}
+			if lg.profile == "cascade" {
+				rule["deleteWith"] = []interface{}{lg.ids[r.Intn(len(lg.ids))]}
+			}
+		case 4:
+			// property variable in a rule pattern (D6)
+			if lg.profile == "dispatch" {
+				rule = rulePat(map[string]interface{}{"?p": lg.g.scalar()})
+			}
 		}
 		if lg.profile == "cascade" && r.Intn(2) == 0 {
 			rule["deleteWith"] = []interface{}{lg.ids[r.Intn(len(lg.ids))]}
 		}
-		if (lg.profile == "expiry" && r.Intn(2) == 0) || r.Intn(40) == 0 {
+		if lg.profile == "expiry" && r.Intn(2) == 0 {
 			lg.expiry(rule)
 		}
 		o["rule"] = rule
@@ -208,7 +229,11 @@ func (lg *locGen) op() map[string]interface{} {
 	default:
 		// property facts that configure the location's gates
 		o["op"] = "addfact"
-		switch r.Intn(8) {
+		sel := r.Intn(8)
+		if lg.profile == "lifecycle" {
+			sel = 7
+		}
+		switch sel {
 		case 0:
 			o["fact"] = map[string]interface{}{"!writeKey": pick(r, "wkey", "wkey", "").(string)}
 		case 1:
@@ -258,7 +283,7 @@ func (lg *locGen) expiry(m map[string]interface{}) {
 }
 
 func genLoc(r *rand.Rand, n int, tier string) []Case {
-	profiles := []string{"search", "dispatch", "lifecycle", "cascade", "acl", "capacity", "forest", "expiry"}
+	profiles := locProfiles
 	var cases []Case
 	for i := 0; i < n; i++ {
 		prof := profiles[i%len(profiles)]
